@@ -20,8 +20,7 @@ Print Assumptions C11_short_rejected.
 Theorem C11_bad_length_rejected : forall decompress fs file sched,
   (8 <= length file)%nat ->
   (Z.of_N (le_dec (firstn 4 (skipn (length file - 8) file))) + 8 > Z.of_nat (length file))%Z ->
-  read_all_src decompress fs (mk_src file sched None) = open_failed false \/
-  read_all_src decompress fs (mk_src file sched None) = open_failed true.
+  read_all_src decompress fs (mk_src file sched None) = open_failed false.
 Proof. exact open_bad_length. Qed.
 Print Assumptions C11_bad_length_rejected.
 
